@@ -706,7 +706,7 @@ impl Prop for C01Prop {
             Section {
                 name: "random",
                 kind: SectionKind::Random {
-                    cases: tier.pick(3_000, 6_000),
+                    cases: tier.pick(3_000, 5_000),
                     maxlen: 6000,
                 },
                 exhaustive: false,
